@@ -172,7 +172,38 @@ def gen_T04():
     need('elif hostmask == authmask and (not self.secure or self.checkHostmask(hostmask, useAuth=False)):\n' in ast.unparse(ch)
          and 'if timeout and when + timeout < time.time():' in ast.unparse(ch),
          'IrcUser.checkHostmask: the login test changed')
+    # ---- src/irclib.py Irc.doNick: supybot.followIdentificationThroughNickChanges
+    li = tree('src/irclib.py')
+    dn = _method(find_class(li, 'Irc'), 'doNick')
+    need(len(dn.body) == 2 and isinstance(dn.body[1], ast.If) and len(dn.body[1].orelse) == 1 and isinstance(dn.body[1].orelse[0], ast.If),
+         'Irc.doNick: if own nick / elif follow changed')
+    fb = dn.body[1].orelse[0]
+    need(ast.unparse(dn.body[1].test) == 'msg.nick == self.nick'
+         and ast.unparse(fb.test) == 'conf.supybot.followIdentificationThroughNickChanges()' and not fb.orelse, 'Irc.doNick: tests changed')
+    fs = [ast.unparse(x) for x in fb.body]
+    need(len(fs) == 2 and fs[0] == 'try:\n    id = ircdb.users.getUserId(msg.prefix)\n    u = ircdb.users.getUser(id)\nexcept KeyError:\n    return'
+         and isinstance(fb.body[1], ast.If) and ast.unparse(fb.body[1].test) == 'u.auth' and not fb.body[1].orelse,
+         'Irc.doNick: lookup / if u.auth changed: %r' % fs)
+    ib = fb.body[1].body
+    need([ast.unparse(x) for x in ib[:2]] == ['_, user, host = ircutils.splitHostmask(msg.prefix)',
+                                             'newhostmask = ircutils.joinHostmask(msg.args[0], user, host)']
+         and len(ib) == 3 and isinstance(ib[2], ast.For) and not ib[2].orelse, 'Irc.doNick: new hostmask / loop changed')
+    loop = ib[2]
+    need(ast.unparse(loop.iter) in ('enumerate(u.auth[:])', 'u.auth[:]') and len(loop.body) == 1 and isinstance(loop.body[0], ast.If)
+         and ast.unparse(loop.body[0].test) == 'ircutils.strEqual(msg.prefix, authmask)' and not loop.body[0].orelse,
+         'Irc.doNick: loop over a copy of u.auth / strEqual test changed')
+    acts = [ast.unparse(x) for x in loop.body[0].body if not ast.unparse(x).startswith('log.')]
+    need(len(acts) == 2 and acts[1] == 'ircdb.users.setUser(u)', 'Irc.doNick: the edit is not followed by ircdb.users.setUser(u): %r' % acts)
+    if acts[0] == 'u.auth[i] = (u.auth[i][0], newhostmask)' and ast.unparse(loop.target) == '(i, (when, authmask))':
+        replaces = True
+    elif acts[0] == 'u.auth.append((when, newhostmask))':
+        replaces = False
+    else:
+        need(False, 'Irc.doNick: unknown way of moving the login: %r' % acts[0])
     out = 'Require Import Base.Wire.\n'
+    out += '(* Irc.doNick, following an identification through a nick change: the (when, old hostmask) entry of user.auth is\n'
+    out += '   replaced in place by (when, new hostmask) [true], or the new entry is appended and the old one kept [false] *)\n'
+    out += 'Definition NICK_FOLLOW_REPLACES : bool := %s.\n' % cbool(replaces)
     out += '(* src/ircdb.py getUserId re-checks a cached id unconditionally; setUser drops the cache entries of user.auth first;\n'
     out += '   checkHostmask honours a login of a secure user only with a matching mask: pinned by the extractor *)\n'
     out += 'Definition LOOKUP_RECHECKS_CACHED : bool := true.\n'
@@ -184,4 +215,4 @@ def gen_T04():
     out += 'Definition HM_ADD_GUARDED : bool := %s.\n' % cbool(g)
     out += _emit('IDENTIFY_HANDLERS', id_h) + _emit('UNIDENTIFY_HANDLERS', un_h) + _emit('CHANGENAME_HANDLERS', cn_h)
     out += _emit('REMOVE_HANDLERS', rm_h) + _emit('REGISTER_HANDLERS', rg_h) + _emit('SECURE_HANDLERS', sc_h)
-    return 'plugins/User/plugin.py, src/ircdb.py', out
+    return 'plugins/User/plugin.py, src/ircdb.py, src/irclib.py', out
